@@ -273,3 +273,16 @@ def lit_fraction(text):
     """Exact value of a Rust float / int literal as written."""
     t = text.replace("_", "")
     return Fraction(Decimal(t))
+
+
+def const_ratio(d, s):
+    """Fraction q with d == q*s, or None"""
+    if s.is_zero():
+        return None
+    if d.is_zero():
+        return Fraction(0)
+    m0 = next(iter(s.t))
+    if m0 not in d.t:
+        return None
+    q = d.t[m0] / s.t[m0]
+    return q if (d - s * Poly.const(q)).is_zero() else None
